@@ -1398,7 +1398,7 @@ def part_h(ctx, stats):
     target of the same statement re-types and (B) helpers whose float / bool call signature occurs only at call sites
     nested inside a builtin call on an assignment / return right-hand side (harness/c02_retype.py)"""
     rng = ctx.rng
-    n = 400 if ctx.tier == "thorough" else 24
+    n = 400 if ctx.tier == "thorough" else 16
     d = {}
     progs = RT.programs(rng, n, d)
     nfixed = len(RT.FIXED)
@@ -2056,8 +2056,9 @@ def run(ctx: C.Ctx):
                  "from the receiver; (B) 1-3 helpers per program whose float / bool / int call signatures occur ONLY nested inside "
                  "str / bool / abs / min / max / len / int / float (one or two deep, inside arithmetic, unary minus, a conditional "
                  "expression, a tuple element, an augmented assignment, a comprehension element) on the right-hand side of an "
-                 "assignment at column 0 / in a block / in the main loop or of a return / local of a wrapper function; 11 fixed "
-                 "representatives at every seed; non-trivial = >= 2 compared values."),
+                 "assignment at column 0 / in a block / in the main loop or of a return / local of a wrapper function, the call "
+                 "first or second argument of min / max, its result optionally passed through a second helper that is itself only "
+                 "called there; 13 fixed representatives at every seed; non-trivial = >= 2 compared values."),
         "guard": ("expressions: Lang/InferGuard.v guard (no string contagion onto a numeric name, numeric operands, `/` and `**` only with a float "
                   "operand, no unary minus on a bool label, and/or only on bool labels, conditional expression with equal or numeric labels, abs/min/max "
                   "on int/bool labels, uniform or numeric list elements, subscripts of list labels, no tuples). programs (theorem): flat_guard = every "
